@@ -389,6 +389,72 @@ def crate_imports(path):
     return seen
 
 
+def cfg_sites(toks, fname, out):
+    """every place where conditional compilation enters the LIBRARY build of one file: `#[cfg(P)] item`,
+    `#[cfg_attr(P, payload)]` / `#![cfg_attr(P, payload)]`, `cfg!(P)`.  `#[cfg(test)]` items are not part of
+    the library and are skipped whole.  -> (file, what, P) with what = `mod` / `use` (the gated item only
+    declares a module or re-exports names), `attr:<payload>` (cfg_attr), `macro` (cfg!), `code` (anything
+    else: a function, impl, statement, expression, field ...)"""
+    i = 0
+    while i < len(toks):
+        t = toks[i]
+        if is_p(t, "#") and i + 1 < len(toks) and (is_p(toks[i + 1], "[") or
+                                                    (is_p(toks[i + 1], "!") and i + 2 < len(toks) and is_p(toks[i + 2], "["))):
+            k = i
+            cfgs = []
+            while k + 1 < len(toks) and is_p(toks[k], "#") and (is_p(toks[k + 1], "[") or is_p(toks[k + 1], "!")):
+                b = k + 1 if is_p(toks[k + 1], "[") else k + 2
+                if not (b < len(toks) and is_p(toks[b], "[")):
+                    break
+                path_, inner, k2 = split_attr(toks, b - 1)
+                if path_ == ["cfg"] and inner is not None:
+                    cfgs.append(inner)
+                elif path_ == ["cfg_attr"] and inner is not None:
+                    parts = split_commas(inner)
+                    payload = " ".join(x.text for part in parts[1:] for x in part)
+                    out.append((fname, "attr:" + payload, cfg_expr(parts[0])))
+                k = k2
+            if not cfgs:
+                i = k
+                continue
+            end = item_extent(toks, k)
+            if any([x.text for x in c] == ["test"] for c in cfgs):
+                i = end
+                continue
+            body = toks[k:end]
+            words = [x.text for x in body[:3]]
+            if words[:1] == ["pub"]:
+                words = words[1:]
+            what = "mod" if words[:1] == ["mod"] and is_p(body[-1], ";") else \
+                   "use" if words[:1] == ["use"] else "code"
+            for c in cfgs:
+                out.append((fname, what, cfg_expr(c)))
+            cfg_sites(body, fname, out)
+            i = end
+            continue
+        if t.kind == "ident" and t.text == "cfg" and i + 2 < len(toks) and is_p(toks[i + 1], "!") and is_p(toks[i + 2], "("):
+            close = matching(toks, i + 2)
+            out.append((fname, "macro", cfg_expr(toks[i + 3:close])))
+            i = close + 1
+            continue
+        i += 1
+
+
+def cfg_inventory(repo):
+    out = []
+    files = []
+    for d in ("src", "qty-macros/src"):
+        full = os.path.join(repo, d)
+        if not os.path.isdir(full):
+            raise Untranslatable(f"{d}: directory not found")
+        for n in sorted(os.listdir(full)):
+            if n.endswith(".rs"):
+                files.append((d + "/" + n, os.path.join(full, n)))
+    for rel, path in files:
+        cfg_sites(tokenize(open(path, encoding="utf-8").read()), rel, out)
+    return out
+
+
 def features_tables(repo):
     feats, optional = parse_features(repo)
     mods = catalogue_modules(repo)
@@ -429,7 +495,7 @@ def features_tables(repo):
             imports.append((name, [(c, m) for c, m in crate_imports(p) if m in known or m[:1].islower()]))
     # non-module names importable from the crate root regardless of features
     return dict(features=feats, optional=optional, gates=gates, amount_cfgs=amount_cfgs,
-                plain_modules=plain, imports=imports)
+                plain_modules=plain, imports=imports, cfg_sites=cfg_inventory(repo))
 
 
 def emit_features(ft):
@@ -483,6 +549,12 @@ def emit_features(ft):
     o.append(rows((f"({lean_text(m)}, [" + ", ".join(
         "([" + ", ".join(lean_text(c) for c in cs) + "], " + lean_text(x) + ")" for cs, x in v) + "])",
         f"{m} uses {v}") for m, v in ft["imports"]))
+    o.append("]")
+    o.append("/-- every place where conditional compilation enters the library build (`src/`, `qty-macros/src/`,")
+    o.append("`#[cfg(test)]` items excluded): (file, what is gated, predicate); `mod`/`use` = the gated item only")
+    o.append("declares a module or re-exports names, `attr:<payload>` = `cfg_attr`, `macro` = `cfg!`, `code` = anything else -/")
+    o.append("def cfgSites : List (Text × Text × Cfg) := [")
+    o.append(rows((f"({lean_text(f)}, {lean_text(w)}, {lean_cfg(e)})", f"{f}: {w}") for f, w, e in ft["cfg_sites"]))
     o.append("]")
     o.append("end Qty.Gen.Features")
     return "\n".join(o) + "\n"
